@@ -57,6 +57,21 @@ Definition write_msg (v : variant) (msg : bytes) : outcome bytes :=
 Definition wire (v : variant) (msgs : list bytes) : bytes :=
   announce v ++ concat (map (frame v) msgs).
 
+(* mode.New followed by one WriteMsg per message, as executed: stops at the first refused message *)
+Fixpoint write_all (v : variant) (msgs : list bytes) : outcome bytes :=
+  match msgs with
+  | [] => Ok []
+  | m :: r =>
+    match write_msg v m with
+    | Ok a => match write_all v r with Ok b => Ok (a ++ b) | Err => Err | Panic => Panic end
+    | Err => Err
+    | Panic => Panic
+    end
+  end.
+
+Definition write_stream (v : variant) (msgs : list bytes) : outcome bytes :=
+  match write_all v msgs with Ok b => Ok (announce v ++ b) | Err => Err | Panic => Panic end.
+
 (* lengths each format can carry: abridged = 3-byte word count, intermediate = 32-bit byte count *)
 Definition carriable (v : variant) (msg : bytes) : Prop :=
   match v with
@@ -119,6 +134,8 @@ Inductive tev :=
 | TCode (code : Z)      (* ErrCode: the 4-byte payload read as a signed 32-bit little-endian integer *)
 | TData (d : bytes).    (* any other payload: handed to the message deserialiser (outside C08) *)
 
+(* int(int32(binary.LittleEndian.Uint32(data))) - the code after patches/C08 (fix: the pinned tree had
+   int(binary.LittleEndian.Uint32(data)), which on amd64 turns -404 into 4294966892) *)
 Definition to_int32 (u : N) : Z :=
   if u <? 2147483648 then Z.of_N u else Z.of_N u - 4294967296.
 
